@@ -131,3 +131,10 @@ Definition check_pot (c : list (list float) * gtree * Z * list (Z * list (msurf 
 (* (j) convert_mcnp_surface on a dictionary entry *)
 Definition check_entry (c : list (msurf float * Z) * res (list (t4surf float * Z))) : bool :=
   res_eqb coll_eqb (convert_entry FS (fst c)) (snd c).
+
+(* (k) direct calls: Transformation.normalize_transform, Transformation.transform_vector *)
+Definition check_nt (c : list (option float) * res (list float)) : bool :=
+  res_eqb fl_eqb (normalize_transform FS (fst c)) (snd c).
+Definition check_affine (c : list float * V3 float * V3 float) : bool :=
+  let '(tr, v, expected) := c in
+  match apply_affine FS tr v with Some w => fl_eqb (vlist w) (vlist expected) | None => false end.
